@@ -295,6 +295,8 @@ def main():
                 extras.append([("Station", pos)])
                 if not quick:
                     extras.append([("Wind", pos), ("Tdew", pos), ("Rs", pos)])
+            if quick:
+                extras.append([("Wind", "middle"), ("Tdew", "middle"), ("Rs", "middle")])
             if not quick:
                 extras.append([("Wind", "first"), ("Station", "last")])
                 extras.append([("Tdew", "middle"), ("Rs", "last")])
@@ -307,6 +309,8 @@ def main():
                 LT = rng.sample(LT, 4)
             for (L, T) in LT:
                 V.append({"cls": "ROWS", "lead": L, "trail": T})
+            V.append({"cls": "COMBO", "perm": ["MinTemp", "Precipitation", "ReferenceET", "MaxTemp", "Date"], "index": "range1000", "lead": 1, "trail": 0})
+            V.append({"cls": "COMBO", "perm": list(CANON), "index": "string", "lead": 30, "trail": 400, "extra": [("Station", "last")]})
             for _ in range(4 if quick else 20):
                 spec = {"cls": "COMBO", "perm": rng.choice(perms + [CANON] * 20), "index": rng.choice(["range0", "range1000", "shuffled", "datetime", "string"]),
                         "lead": rng.choice([0, 1, 30, 400]), "trail": rng.choice([0, 1, 30, 400])}
@@ -345,12 +349,12 @@ def main():
             "BOUNDED. %d configurations %s (2-season windows, rotating 5 soils / 5 irrigation options incl. dated schedule / groundwater / mulch; "
             "real tunis/champion records). Variant tables per configuration: PERM %s; EXTRA columns (Wind|Station%s at first/middle/last%s); "
             "INDEX {RangeIndex+1000, shuffled integer labels, DatetimeIndex, string labels}; ROWS (lead,trail) in {0,1,30,400}^2 minus (0,0)%s; "
-            "COMBO %d seeded mixtures of all four. Runs by class: %s. Each compared bitwise (water_flux, water_storage, crop_growth, final_stats) with the "
+            "COMBO 2 fixed + %d seeded mixtures of all four. Runs by class: %s. Each compared bitwise (water_flux, water_storage, crop_growth, final_stats) with the "
             "canonical-table run of the same configuration."
             % (ncfgs, [e[0] + ("+SwitchGDD" if e[3] == "switch" else "") for e in ENTRIES[:ncfg]],
                ("4 fixed (reversal, Date first, Tmin<->Tmax, P<->ET0) + 8 sampled of the 119 non-identity permutations" if quick else
                 "all 119 non-identity permutations for the first %d configurations, 4 fixed + 24 sampled for the others" % full_perm_cfgs),
-               "" if quick else "|Wind+Tdew+Rs", "" if quick else " and two mixed placements", " (4 sampled)" if quick else "",
+               "" if quick else "|Wind+Tdew+Rs", " and Wind+Tdew+Rs in the middle" if quick else " and two mixed placements", " (4 sampled)" if quick else "",
                4 if quick else 20, json.dumps(by_cls, sort_keys=True)))
         res["rule"] = ("a case is one variant table run against the canonical run of the same configuration; every enumerated variant is non-trivial by "
                        "construction (the identity permutation and the (0,0) row extension are excluded; the canonical run itself is not counted).")
